@@ -394,6 +394,25 @@ theorem abort_create_removes (sync : File → File) (s : NCState) (d : Disk) (hn
 example : abort id ⟨true, true, false, false, false, 0⟩ (some [67, 68, 70, 1]) = none := by
   simp [abort]
 
+/-- **define_mode_ops_write_nothing**: any sequence of metadata calls (definitions, attribute puts, deletes,
+    renames, `ncmpi_copy_att` from a source file in ANY mode, fill settings) on a file that is in define mode
+    leaves the disk exactly as it is; together with `abort_redef_identity` this is why an aborted redefinition
+    is invisible.  (Tie: checks/c06.py snapshots the file after define-mode calls, incl. `ncmpi_copy_att` from
+    a second file in data mode, and compares byte for byte.) -/
+theorem define_mode_ops_write_nothing (writeHdr : File → File) (s : NCState) (hdef : s.indef = true)
+    (ops : List MetaOp) (d : Disk) : ops.foldl (metaOpDisk writeHdr s) d = d := by
+  induction ops generalizing d with
+  | nil => rfl
+  | cons op ops ih => simp only [List.foldl_cons, metaOpDisk, hdef, if_true]; exact ih d
+
+/-- the other direction: `ncmpi_copy_att` INTO a file in data mode writes that file's header at once, whatever
+    the mode of the source file -/
+theorem copyAtt_data_mode_writes (writeHdr : File → File) (s : NCState) (hdata : s.indef = false)
+    (srcIndef : Bool) (d : Disk) : metaOpDisk writeHdr s d (.copyAtt srcIndef) = d.map writeHdr := by
+  simp [metaOpDisk, hdata, MetaOp.inDataMode]
+
+example : (⟨false, true, false, false, true, 1⟩ : NCState).indef = true := rfl   -- a file under redefinition
+
 /-- in data mode (not new, no pending redefinition) abort keeps the file (it is a close) -/
 theorem abort_data_keeps (sync : File → File) (s : NCState) (f : File)
     (hnew : s.isNew = false) : (abort sync s (some f)).isSome = true := by
@@ -405,6 +424,7 @@ theorem abort_data_keeps (sync : File → File) (s : NCState) (f : File)
 def obligations : List String := [
   "chunkSize_pos", "bufcount_fits_int", "moveBlock_copied", "moveBlock_correct",
   "moveRecords_preserves", "moveFixed_preserves", "enddefMove_preserves", "enddef_fill_touches_only_new",
-  "abort_redef_identity", "abort_create_removes", "abort_data_keeps"
+  "abort_redef_identity", "abort_create_removes", "abort_data_keeps",
+  "define_mode_ops_write_nothing", "copyAtt_data_mode_writes"
 ]
 end PnVerif.Props.C06
